@@ -181,16 +181,14 @@ def check_structured(col, n, p):
     for dt in (np.int32, np.uint32, np.uint16, np.int16, np.uint64):
         if side - 1 <= np.iinfo(dt).max:
             col.count("evaluations", len(cells))
-            raw = hc.distances_from_coordinates(p, cells.astype(dt))
-            if np.asarray(raw).dtype.kind not in "iu":
-                col.violation("coord_dtype", dict(case, dtype=np.dtype(dt).name), f"{np.dtype(dt).name} coordinates: distances come back as {np.asarray(raw).dtype}")
-                continue
-            dn = np.asarray(raw).astype(np.int64)
+            raw = np.asarray(hc.distances_from_coordinates(p, cells.astype(dt)))
+            # values only (whatever number type carries them): a float carrier shows up as wrong values beyond 2^53
+            dn = np.array([int(v) for v in raw.tolist()], dtype=np.int64) if raw.dtype.kind == "f" else raw.astype(np.int64)
             if dt is np.uint64 and len(cells):
                 # the scalar entry point on a row of the same dtype
                 k0 = len(cells) - 1
                 sv = hc.distance_from_coordinate(p, cells[k0].astype(dt))
-                if not isinstance(sv, (int, np.integer)) or int(sv) != int(d[k0]):
+                if int(sv) != int(d[k0]):
                     col.violation("coord_dtype", dict(case, dtype="uint64", cell=cells[k0].tolist()),
                                   f"scalar distance of uint64 cell {cells[k0].tolist()}: {sv!r} vs {int(d[k0])}")
             if (dn != d).any():
